@@ -3,6 +3,8 @@ a user-written Runner that reuses SequentialRunner._setup and replaces the run l
 seeded op list).  Both run the real pams code; see DESIGN.md 2.2.
 """
 import copy
+import os
+import json
 import random
 import sys
 import traceback
@@ -166,8 +168,22 @@ def run_A(scn: Dict[str, Any], on, plugins=()) -> Dict[str, Any]:
     res["phase"] = "construct"
     try:
         rcls = DepOrderRunner if scn.get("runner_variant") == "deporder" else SequentialRunner
-        runner = rcls(settings=cfg, prng=random.Random(scn["runner_seed"]), logger=logger,
-                      simulator_class=classes["TapSimulator"])
+        settings_arg: Any = cfg
+        if scn.get("settings_form") == "path":
+            # the runner also takes the path of a JSON file: one fixed path per process, rewritten for every run
+            import tempfile
+            settings_arg = os.path.join(tempfile.gettempdir(), f"vsim_settings_{os.getpid()}.json")
+            with open(settings_arg, "w") as fh:
+                json.dump(cfg, fh)
+        elif scn.get("settings_form") == "stream":
+            import io
+            settings_arg = io.StringIO(json.dumps(cfg))
+        try:
+            runner = rcls(settings=settings_arg, prng=random.Random(scn["runner_seed"]), logger=logger,
+                          simulator_class=classes["TapSimulator"])
+        finally:
+            if isinstance(settings_arg, str) and os.path.exists(settings_arg):
+                os.remove(settings_arg)
         for c in classes.values():
             runner.class_register(c)
         if scn.get("register_clash"):
